@@ -10,7 +10,7 @@ Local Open Scope Z_scope.
 
 (* ------------------------------------------------------------------ one posting through the semantic layer *)
 Lemma posting_wf_plain acc c amt : name_ok acc = true -> acct_sem_ok acc = true -> fits amt = true ->
-  is_zero amt = false -> (is_nil c || ident_ok c = true) ->
+  is_zero amt = false -> (is_nil c || comm_ok c = true) ->
   posting_shape_b (mkPosting acc c amt amt false c) = true /\ posting_price_b (mkPosting acc c amt amt false c) = true.
 Proof.
   intros Hn Hs Hf Hz Hc. unfold posting_shape_b, posting_price_b. cbn [p_acc p_comm p_amount p_txn_amount p_total p_txn_comm].
@@ -21,15 +21,18 @@ Lemma accept_posting_wf rp p : rawpost_wf rp = true -> accept_posting rp = Ok p 
   fits (p_txn_amount p) = true ->
   posting_shape_b p = true /\ posting_price_b p = true.
 Proof.
-  unfold rawpost_wf. intro Hw. apply andb_true_iff in Hw as [Hw Hu]. apply andb_true_iff in Hw as [Hw Hf].
-  apply andb_true_iff in Hw as [Hn Hs].
+  unfold rawpost_wf. intro Hw. apply andb_true_iff in Hw as [Hw Hsem]. apply andb_true_iff in Hw as [Hw Hu].
+  apply andb_true_iff in Hw as [Hw Hf]. apply andb_true_iff in Hw as [Hn Hs].
   unfold accept_posting. destruct rp as [acc amt ou]. cbn [rp_acc rp_amount rp_unit] in *.
   destruct ou as [u|]; cbn [value_position].
   - cbn [unit_wf] in Hu. apply andb_true_iff in Hu as [Hpc Hcl].
+    cbn [unit_sem_ok] in Hsem. apply andb_true_iff in Hsem as [Hspc Hscl].
     destruct u as [pc op cl]. cbn [u_comm u_opening u_closing] in *.
+    assert (Hpc' : comm_ok pc = true) by (unfold comm_ok; rewrite Hpc, Hspc; reflexivity).
     set (has_pos := match op, cl with None, None => false | _, _ => true end).
     destruct cl as [[[ty v] c]|].
     + cbn [closing_wf] in Hcl. apply andb_true_iff in Hcl as [Hfv Hic].
+      assert (Hic' : comm_ok c = true) by (unfold comm_ok; rewrite Hic, Hscl; reflexivity).
       assert (Hhp : has_pos = true) by (subst has_pos; destruct op; reflexivity). rewrite Hhp.
       destruct (str_eqb pc c) eqn:Eeq; [discriminate|]. cbn [res_bind].
       destruct (match op with Some (v0, _) => is_neg v0 | None => false end); [discriminate|].
@@ -39,7 +42,7 @@ Proof.
         destruct (is_zero amt) eqn:Ez; [discriminate|]. intro H. injection H as <-. intro Hft.
         cbn [p_txn_amount] in Hft.
         unfold posting_shape_b, posting_price_b. cbn [p_acc p_comm p_amount p_txn_amount p_total p_txn_comm].
-        rewrite Hn, Hs, Hf, Ez, Hpc, Hic, Hft, (str_eqb_false_sym _ _ Eeq), orb_true_r. cbn [negb andb].
+        rewrite Hn, Hs, Hf, Ez, Hpc', Hic', Hft, (str_eqb_false_sym _ _ Eeq), orb_true_r. cbn [negb andb].
         split; [reflexivity|].
         apply (unit_priced_b_of (mkPosting acc pc amt (dmul amt v) false c)).
         -- cbn [p_amount]. unfold is_zero in Ez. apply Z.eqb_neq in Ez. exact Ez.
@@ -49,20 +52,20 @@ Proof.
         cbn [res_bind]. unfold mk_posting. destruct (is_zero amt) eqn:Ez; [discriminate|].
         intro H. injection H as <-. intros _.
         unfold posting_shape_b, posting_price_b. cbn [p_acc p_comm p_amount p_txn_amount p_total p_txn_comm].
-        rewrite Hn, Hs, Hf, Ez, Hpc, Hic, Hfv, (str_eqb_false_sym _ _ Eeq), orb_true_r, Esg. split; reflexivity.
+        rewrite Hn, Hs, Hf, Ez, Hpc', Hic', Hfv, (str_eqb_false_sym _ _ Eeq), orb_true_r, Esg. split; reflexivity.
     + (* no closing price: valued in its own commodity *)
       assert (Htc : (if has_pos then Ok pc else Ok pc) = @Ok (list N) pc) by (destruct has_pos; reflexivity).
       rewrite Htc. cbn [res_bind].
       destruct (match op with Some (v0, _) => is_neg v0 | None => false end); [discriminate|].
       cbn [res_bind]. unfold mk_posting. destruct (is_zero amt) eqn:Ez; [discriminate|].
       intro H. injection H as <-. intros _.
-      apply posting_wf_plain; try assumption. rewrite Hpc. apply orb_true_r.
+      apply posting_wf_plain; try assumption. rewrite Hpc'. apply orb_true_r.
   - cbn [res_bind]. unfold mk_posting. destruct (is_zero amt) eqn:Ez; [discriminate|].
     intro H. injection H as <-. intros _. apply posting_wf_plain; try assumption; reflexivity.
 Qed.
 
 Lemma posting_txn_comm_ok p : posting_shape_b p = true -> posting_price_b p = true ->
-  is_nil (p_txn_comm p) || ident_ok (p_txn_comm p) = true.
+  is_nil (p_txn_comm p) || comm_ok (p_txn_comm p) = true.
 Proof.
   unfold posting_shape_b, posting_price_b. intros Hs Hp. apply andb_true_iff in Hs as [_ Hc].
   destruct (str_eqb (p_txn_comm p) (p_comm p)) eqn:E.
@@ -136,7 +139,7 @@ Proof.
     cbn [forallb] in Hdoml. rewrite andb_true_r in Hdoml. unfold dom_post in Hdoml. cbn [p_amount p_txn_amount] in Hdoml.
     apply andb_true_iff in Hdoml as [Hfl _].
     assert (Hcomm : is_nil (match ps0 with p :: _ => p_txn_comm p | [] => [] end)
-                    || ident_ok (match ps0 with p :: _ => p_txn_comm p | [] => [] end) = true).
+                    || comm_ok (match ps0 with p :: _ => p_txn_comm p | [] => [] end) = true).
     { destruct ps0 as [|p0 ps0']; [reflexivity|]. cbn [forallb] in Hps0. apply andb_true_iff in Hps0 as [Hp0 _].
       apply andb_true_iff in Hp0 as [A B]. exact (posting_txn_comm_ok p0 A B). }
     destruct (posting_wf_plain a _ _ Hna Hsa Hfl Ezl Hcomm) as [A B].
